@@ -96,6 +96,8 @@ func buildOptions(cfg *Cfg, mon imonitor.Monitor, sizes map[string]pg.Size, deco
 		opts = append(opts, autog.WithPositioning(phase4.NetworkSimplex))
 	case 4:
 		opts = append(opts, autog.WithPositioning(phase4.BrandesKoepf), autog.WithBrandesKoepfLayout(cfg.BK))
+	case 5:
+		opts = append(opts, autog.WithPositioning(phase4.NoPositioning))
 	}
 	switch cfg.P5 {
 	case 0:
